@@ -419,3 +419,17 @@ pub fn c02_accepts<S: Src>(s: &mut S) {
     s.assume(r.is_some());
     assert!(r == Some(true), "{}::from_bytes refuses {:02x?}", name, bytes);
 }
+
+/// a text entry point, selected by name, on the given text (bytes that are not UTF-8 are replaced): it must return, not panic
+pub fn c02_text<S: Src>(s: &mut S) {
+    let (name, bytes) = draw_name_bytes(s);
+    let text = String::from_utf8_lossy(&bytes).to_string();
+    match name.as_str() {
+        "ByronBase58" => { let _ = ByronAddress::from_base58(&text); let _ = ByronAddress::is_valid(&text); }
+        "Bech32Address" => { let _ = Address::from_bech32(&text); }
+        "IntFromStr" => { let _ = Int::from_str(&text); }
+        "BigNumFromStr" => { let _ = BigNum::from_str(&text); }
+        "BigIntFromStr" => { let _ = BigInt::from_str(&text); }
+        _ => s.assume(false),
+    }
+}
